@@ -712,7 +712,12 @@ impl<V: Object> Object for HashMap<Name, V> {
             Primitive::Dictionary (dict) => {
                 let mut new = Self::new();
                 for (key, val) in dict.iter() {
-                    new.insert(key.clone(), V::from_primitive(val.clone(), resolve)?);
+                    match V::from_primitive(val.clone(), resolve) {
+                        Ok(v) => { new.insert(key.clone(), v); }
+                        // a value that refers to a missing object is a null value: the entry is absent (ISO 32000-1, 7.3.10, 7.3.7)
+                        Err(e) if e.is_missing_object() => {}
+                        Err(e) => return Err(e),
+                    }
                 }
                 Ok(new)
             }
